@@ -29,13 +29,70 @@ SCRIPTS = {
 }
 
 
+LONG2 = 'n' * 700                                   # three NM entries
+SYM_MANY = '/'.join('comp%02d' % i for i in range(60))            # several SL entries, split between components
+SYM_LONGCOMP = 'x/' + 'y' * 300 + '/../z'                         # one component longer than an SL entry can hold
+
+# Rock Ridge scripts (C08).  A 6th element of a 'file' op / 5th of a 'dir' op is a dict of extra keyword arguments (file_mode)
+RR_SCRIPTS = {
+    'rr-110-modes': (dict(rock_ridge='1.10'), [('file', '/A.;1', 'a', None, 5, {'file_mode': 0o100640}), ('dir', '/D', 'dir', None, {'file_mode': 0o040700}),
+                                               ('file', '/D/B.;1', 'b' * 190, None, 9, {'file_mode': 0o100755}), ('dir', '/D/E', 'e' * 215, None),
+                                               ('dir', '/D/F', 'f', None), ('symlink', '/S.;1', 's' * 180, 'dir/' + 'b' * 190)]),
+    'rr-112-xa-symlinks': (dict(rock_ridge='1.12', xa=True), [('file', '/A.;1', LONG2, None, 5), ('symlink', '/S1.;1', 'many', SYM_MANY),
+                                                              ('symlink', '/S2.;1', 'longcomp', SYM_LONGCOMP), ('symlink', '/S3.;1', 'root', '/'),
+                                                              ('symlink', '/S4.;1', 'dots', '../.././a'), ('dir', '/D', 'd', None), ('symlink', '/D/S5.;1', 'w' * 250, '/' + 'q' * 255)]),
+    'rr-ce-history': (dict(rock_ridge='1.09'), [('file', '/F%02d.;1' % i, ('name%02d-' % i) + 'x' * (150 + 9 * i), None, 1) for i in range(12)] +
+                      [('rm_file', '/F03.;1', None), ('rm_file', '/F04.;1', None), ('rm_file', '/F08.;1', None)] +
+                      [('file', '/G1.;1', 'g1-' + 'y' * 170, None, 2), ('file', '/G2.;1', 'g2-' + 'y' * 240, None, 2), ('symlink', '/G3.;1', 'g3', SYM_MANY),
+                       ('rm_file', '/F00.;1', None), ('dir', '/H', 'h' * 230, None)]),
+    'deep-rr-112': (dict(rock_ridge='1.12'), [('dir', p, p.rsplit('/', 1)[1].lower() + '-' + 'l' * 40 * (i % 3), None) for i, p in enumerate(DEEP)] +
+                    [('dir', DEEP[-1] + '/D9', 'd9', None), ('file', DEEP[-1] + '/D9/X.;1', 'x' * 200, None, 3), ('file', DEEP[-1] + '/Y.;1', 'y', None, 4),
+                     ('dir', '/D1/D2/D3/D4/D5/D6/D7/E8', 'e8', None), ('file', '/D1/D2/D3/D4/D5/D6/D7/E8/Z.;1', 'z', None, 5)]),
+}
+
+# Joliet scripts (C09): names outside ASCII / outside the BMP, 64-character names, trees that differ between Joliet and ISO9660
+JOLIET_SCRIPTS = {
+    'joliet-unicode': (dict(joliet=3), [('file', '/A.;1', None, '/\u00e9t\u00e9 \u65e5\u672c\u8a9e.txt', 7), ('file', '/B.;1', None, '/' + 'w' * 64, 3),
+                                        ('dir', '/D', None, '/\u0434\u0438\u0440'), ('file', '/D/C.;1', None, '/\u0434\u0438\u0440/\U0001f600 smile', 2049),
+                                        ('file', '/Z.;1', None, '/Zz', 1), ('file', '/Y.;1', None, '/zZ', 1)]),
+    'joliet-divergent': (dict(joliet=3), [('dir', '/D', None, None), ('file', '/D/ISOONLY.;1', None, None, 5), ('jdir', '/jonly'), ('file', '/A.;1', None, '/jonly/a in joliet only dir', 6),
+                                          ('file', '/B.;1', None, '/b', 2), ('jlink', '/B.;1', '/jonly/second name of b'), ('rm_jlink', '/b'),
+                                          ('file', '/E.;1', None, '/e', 0)]),
+    'joliet-level1-many': (dict(joliet=1), [('file', '/F%03d.;1' % i, None, '/' + ('long joliet name number %03d ' % i) * 2, 1) for i in range(40)] +
+                           [('rm_file', '/F007.;1', '/' + 'long joliet name number 007 ' * 2), ('dir', '/D', None, '/' + 'd' * 64)]),
+    'joliet-rr-udf-less': (dict(joliet=2, rock_ridge='1.09'), [('dir', '/D', 'dee', '/Dee'), ('file', '/D/A.;1', 'a-rr', '/Dee/a-joliet', 10), ('symlink', '/S.;1', 'sym', 'dee/a-rr'),
+                                                                ('link', '/D/A.;1', '/L.;1'), ('file', '/M.;1', 'm', '/m', 3), ('rm_link', '/L.;1')]),
+}
+
+SCRIPTS_ALL = dict(SCRIPTS)
+SCRIPTS_ALL.update(RR_SCRIPTS)
+SCRIPTS_ALL.update(JOLIET_SCRIPTS)
+
+
+def modes_of(script):
+    """the POSIX mode each ISO path must show through Rock Ridge"""
+    m = {}
+    for op in script:
+        if op[0] == 'file':
+            m[op[1]] = (op[5] if len(op) > 5 else {}).get('file_mode', 0o100444)
+        elif op[0] == 'dir':
+            m[op[1]] = (op[4] if len(op) > 4 else {}).get('file_mode', 0o040555)
+        elif op[0] == 'symlink':
+            m[op[1]] = 0o120555
+        elif op[0] == 'link':
+            m[op[2]] = m.get(op[1], 0o100444)
+        elif op[0] in ('rm_file', 'rm_dir', 'rm_link'):
+            m.pop(op[1], None)
+    return m
+
+
 def model_of(script):
     """what the edits imply: ISO tree, Joliet tree, Rock Ridge names/targets, hidden flags, content ids"""
     iso, jol, rr, hidden, symlinks = {}, {}, {}, set(), {}
     content = {}
     for op in script:
         if op[0] == 'file':
-            _, ip, rn, jp, size = op
+            _, ip, rn, jp, size = op[:5]
             cid = len(content)
             content[cid] = size
             iso[ip] = ('file', cid)
@@ -44,13 +101,19 @@ def model_of(script):
             if jp is not None:
                 jol[jp] = ('file', cid)
         elif op[0] == 'dir':
-            _, ip, rn, jp = op
+            _, ip, rn, jp = op[:4]
             iso[ip] = ('dir',)
             if rn is not None:
                 rr[ip] = rn
             if jp is not None:
                 jol[jp] = ('dir',)
         elif op[0] == 'rm_file':
+            gone = iso.get(op[1])
+            if gone is not None and gone[0] == 'file':
+                for d in (iso, jol):
+                    for k in [k for k, v in d.items() if v == gone]:
+                        d.pop(k)
+                        rr.pop(k, None)
             iso.pop(op[1], None)
             rr.pop(op[1], None)
             if op[2]:
@@ -62,6 +125,15 @@ def model_of(script):
                 jol.pop(op[2], None)
         elif op[0] == 'link':
             iso[op[2]] = iso[op[1]]
+        elif op[0] == 'rm_link':
+            iso.pop(op[1], None)
+            rr.pop(op[1], None)
+        elif op[0] == 'jdir':
+            jol[op[1]] = ('dir',)
+        elif op[0] == 'jlink':
+            jol[op[2]] = iso[op[1]]
+        elif op[0] == 'rm_jlink':
+            jol.pop(op[1], None)
         elif op[0] == 'symlink':
             iso[op[1]] = ('symlink',)
             rr[op[1]] = op[2]
@@ -72,25 +144,35 @@ def model_of(script):
 
 
 def build(c, name):
-    kw, script = SCRIPTS[name]
+    kw, script = SCRIPTS_ALL[name]
     iso = S.new_image(c, **kw)
     contents = {}
     rrflag = 'rock_ridge' in kw
     for op in script:
         if op[0] == 'file':
-            _, ip, rn, jp, size = op
+            _, ip, rn, jp, size = op[:5]
             cid = len(contents)
             data = c.bytes('content%d' % cid, size)
             contents[cid] = data
             k = dict(iso_path=ip)
+            k.update(op[5] if len(op) > 5 else {})
             if rn is not None:
                 k['rr_name'] = rn
             if jp is not None:
                 k['joliet_path'] = jp
             S.call(c, iso, 'add_fp', S.data_file(c, data), size, **k)
+        elif op[0] == 'rm_link':
+            S.call(c, iso, 'rm_hard_link', iso_path=op[1])
+        elif op[0] == 'jdir':
+            S.call(c, iso, 'add_directory', joliet_path=op[1])
+        elif op[0] == 'jlink':
+            S.call(c, iso, 'add_hard_link', iso_old_path=op[1], joliet_new_path=op[2])
+        elif op[0] == 'rm_jlink':
+            S.call(c, iso, 'rm_hard_link', joliet_path=op[1])
         elif op[0] == 'dir':
-            _, ip, rn, jp = op
+            _, ip, rn, jp = op[:4]
             k = dict(iso_path=ip)
+            k.update(op[4] if len(op) > 4 else {})
             if rn is not None:
                 k['rr_name'] = rn
             if jp is not None:
@@ -144,7 +226,7 @@ class Mastered(Base):
 
     def post(self, c, a, out):
         img = list(a.out.items) if c.symbolic else list(a.out.getvalue())
-        kw, script = SCRIPTS[self.script]
+        kw, script = SCRIPTS_ALL[self.script]
         iso_m, jol_m, rr_m, hidden_m, sym_m, content_m = model_of(script)
         cl = {}
         try:
@@ -226,8 +308,13 @@ class Mastered(Base):
         # C08: Rock Ridge
         ce_areas = []
         if 'rock_ridge' in kw:
-            ok, nlink_ok = [], []
-            ndirs = {}
+            ok, nlink_ok, mode_ok = [], [], []
+            modes = modes_of(script)
+            dot_links = {}
+            for d, parent, path in root.dirs_in_order:
+                for r in d.all_records:
+                    if r.name == b'\x00':
+                        dot_links[path] = R.rock_ridge(im, r, 0).nlink
             for d, parent, path in root.dirs_in_order:
                 subdirs = sum(1 for ch in d.children if ch.isdir)
                 for r in d.all_records:
@@ -235,19 +322,29 @@ class Mastered(Base):
                     ce_areas += rr.ce_areas
                     p = (path + b'/' + r.name).decode() if r.name not in (b'\x00', b'\x01') else None
                     if p is None:
-                        if r.name == b'\x00' and not relocating:
-                            nlink_ok.append(rr.nlink == 2 + subdirs)
+                        if not relocating:
+                            # '..' records are not entries of the user's tree; readers take a directory's attributes from its '.'
+                            if r.name == b'\x00':
+                                nlink_ok.append(rr.nlink == 2 + subdirs)
+                                mode_ok.append(rr.mode == modes.get(path.decode(), 0o040555))
                         continue
                     if p in rr_m:
                         ok.append(rr.name == rr_m[p].encode())
+                    if p in modes:
+                        mode_ok.append(rr.mode == modes[p])
                     if p in sym_m:
                         ok.append(rr.symlink == sym_m[p].encode() and (rr.mode & 0o170000) == 0o120000)
+                        nlink_ok.append(rr.nlink == 1)
                     elif p in iso_m and iso_m[p][0] == 'dir':
                         ok.append(rr.mode is not None and (rr.mode & 0o170000) == 0o040000)
+                        if not relocating:
+                            nlink_ok.append(rr.nlink == dot_links.get(path + b'/' + r.name))
                     elif p in iso_m:
-                        ok.append(rr.mode is not None and (rr.mode & 0o170000) == 0o100000)
+                        ok.append(rr.mode is not None and (rr.mode & 0o170000) == 0o100000 and rr.symlink is None)
+                        nlink_ok.append(rr.nlink == 1)
             cl['rock-ridge-names-types-and-symlink-targets'] = all(ok) and len(ok) > 0
-            cl['rock-ridge-directory-link-counts'] = all(nlink_ok)
+            cl['rock-ridge-link-counts'] = all(nlink_ok)
+            cl['rock-ridge-modes-are-the-given-ones'] = all(mode_ok)
         # C04: allocation
         objs = [('system area', 0, 16)]
         for t, sec, ident in res['vds']:
@@ -340,7 +437,7 @@ class Reopened(Base):
         return Call([a.fp], self_obj=a.re)
 
     def post(self, c, a, out):
-        kw, script = SCRIPTS[self.script]
+        kw, script = SCRIPTS_ALL[self.script]
         iso_m, jol_m, rr_m, hidden_m, sym_m, content_m = model_of(script)
         cl = {}
         cl['library-shows-the-expected-entries-and-bytes'] = library_view(c, a.re, {p: v for p, v in iso_m.items() if v[0] != 'symlink'}, content_m, a.contents, jol_m)
